@@ -164,7 +164,7 @@ func (v *valBool) decode(dec decoder.Decoder) error {
 
 	// Check for additional values
 	vtag := dec.Byte()
-	for vtag != v.tag {
+	for vtag == v.tag {
 		//check name length
 		if l := dec.Int16(); l == 0 {
 			if b := dec.Byte(); b == 1 {
